@@ -219,6 +219,43 @@ try:
         finally:
             shutil.rmtree(tmp, ignore_errors=True)
 
+    # ---- (4c) a filterable spec with small match budgets: every load of the archive yields the persisted lines again - loading must not
+    # use up the registered filters (second load, later elements of a multi-output spec)
+    from insights.core import filters as _filters
+    from insights.core.spec_factory import RegistryPoint, SpecSet
+    from insights.core.context import SerializedArchiveContext as _SAC
+    _filters.ENABLED = True
+
+    class FSpecs(SpecSet):
+        flog = RegistryPoint(filterable=True, multi_output=True)
+
+    @datasource()
+    def flog_impl(broker):
+        pass
+
+    class FImpl(FSpecs):
+        flog = flog_impl
+    _filters.add_filter(FSpecs.flog, "ERROR", 5)       # budgets that one element does not use up evenly
+    _filters.add_filter(FSpecs.flog, "WARN", 1)
+    tmp = tempfile.mkdtemp(prefix="c11f_")
+    try:
+        texts = [["ERROR a%d" % i, "WARN b%d" % i, "ERROR c%d" % i] for i in range(3)]
+        b = dr.Broker()
+        b[FSpecs.flog] = [DatasourceProvider(list(t), "logs/f%d.log" % i, ds=FSpecs.flog) for i, t in enumerate(texts)]
+        Hydration(tmp).dehydrate(FSpecs.flog, b)
+        for load in (1, 2):
+            lb = dr.Broker()
+            ctx = _SAC(tmp)
+            lb[_SAC] = ctx
+            loaded = Hydration(tmp, ctx=ctx).hydrate(lb).get(FSpecs.flog) or []
+            got = [list(p.content) for p in loaded]
+            count["order"] += 1
+            if got != texts:
+                fail(violation="loading a filterable spec does not yield the persisted lines (filter budgets used up by an earlier load / element)",
+                     load=load, persisted=texts, loaded=got, registry=dict(_filters.get_filters(FSpecs.flog, True)))
+    finally:
+        shutil.rmtree(tmp, ignore_errors=True)
+
     # ---- (5) a failed component is persisted with its errors
     tmp = tempfile.mkdtemp(prefix="c11e_")
     try:
